@@ -71,6 +71,12 @@ def _raises(model: Model, rep: Report, reach: Set[str]) -> None:
                 continue
             target = n.exc.func if isinstance(n.exc, ast.Call) else n.exc
             cls = model.resolve_expr(f.module, target, f.cls) or dotted(target) or "?"
+            if cls not in model.classes and isinstance(target, ast.Attribute) and isinstance(target.value, ast.Name) and target.value.id in ("self", "cls") and f.cls is not None:
+                # exception class nested in the raising class (ccitt: self.InvalidData)
+                for k in model.mro(f.cls.qualname):
+                    if f"{k}.{target.attr}" in model.classes:
+                        cls = f"{k}.{target.attr}"
+                        break
             if isinstance(n.exc, ast.Name) and cls not in model.classes and cls not in ("NotImplementedError",):
                 # raise e (bound exception variable)
                 r1.ok(site(f, n), q, txt, note="re-raise of a caught exception", nontrivial=False)
